@@ -35,3 +35,60 @@ Theorem find_precedence : forall s (p : cid -> bool),
   end.
 Proof. exact Lemmas.find_precedence. Qed.
 Print Assumptions find_precedence.
+
+(* announce_exact.  For every call other than update_id / collection membership (next two theorems), from any state that
+   satisfies the invariant (every reachable one, by data_inv_reachable_partial's lemma run_inv): without a hub nothing is
+   logged; with a hub, among the messages handed to the hub during the call (the collection's reaction
+   ExternallyDerivableComponentsChangedMessage filtered out) the DataAddComponentMessages are exactly, once each, the ids
+   that entered the component table, the DataRemoveComponentMessages exactly the ids that left it, there is one
+   ComponentsChangedMessage per Add / Remove, and all other messages are the documented ones for that call
+   ([expected_others]: reorder / rename / numerical-data-changed / label), none on a failed or no-op call. *)
+Theorem announce_exact : forall o s, data_inv s -> guard_op s o = true -> special o = false ->
+  let s' := fst (step o s) in
+  (hub s = NoHub -> log s' = []) /\
+  (hub s <> NoHub ->
+     let out := filter nonext (log s') in
+     NoDup (adds out) /\ NoDup (removes out) /\
+     (forall x, In x (adds out) <-> In x (K s') /\ ~ In x (K s)) /\
+     (forall x, In x (removes out) <-> In x (K s) /\ ~ In x (K s')) /\
+     nchanged out = (length (adds out) + length (removes out))%nat /\
+     others out = expected_others o s (snd (step o s))).
+Proof. exact Lemmas.announce_exact. Qed.
+Print Assumptions announce_exact.
+
+(* nothing changed (same ids, no documented value-type message) => nothing announced *)
+Theorem silent_when_unchanged : forall o s, data_inv s -> guard_op s o = true -> special o = false -> hub s <> NoHub ->
+  (forall x, In x (K (fst (step o s))) <-> In x (K s)) -> expected_others o s (snd (step o s)) = [] ->
+  filter nonext (log (fst (step o s))) = [].
+Proof. exact Lemmas.silent_when_unchanged. Qed.
+Print Assumptions silent_when_unchanged.
+
+Theorem announce_update_id : forall o n s, data_inv s ->
+  let s' := fst (step (OUpdateId o n) s) in
+  (hub s = NoHub -> log s' = []) /\
+  (hub s <> NoHub -> filter nonext (log s') =
+     if negb (o =? n) && negb (used o s && used n s) && used o s then [MReplaced o n] else []).
+Proof. exact Lemmas.announce_update_id. Qed.
+Print Assumptions announce_update_id.
+
+Theorem announce_membership : forall s,
+  filter nonext (log (fst (step OJoin s))) = (match hub s with InColl => [] | _ => [MCollAdd] end) /\
+  filter nonext (log (fst (step OLeave s))) = (match hub s with InColl => [MCollDel] | _ => [] end).
+Proof. exact Lemmas.announce_membership. Qed.
+Print Assumptions announce_membership.
+
+(* the invariant needed above holds in every reachable state *)
+Theorem invariant_reachable : forall m c pool dl ops,
+  guarded ops (init m c pool dl) = true -> data_inv (run ops (init m c pool dl)).
+Proof. exact Lemmas.invariant_reachable. Qed.
+Print Assumptions invariant_reachable.
+
+(* stable order for the three primitive mutations (add_component / remove_component with cascade / update_id);
+   set_coords and update_values_from_data are sequences of these (their order is covered by the correspondence) *)
+Theorem order_stable_basic : forall s, NoDup (keys (comps s)) ->
+  (forall c, exists f, comps (remove_component c s) = filter f (comps s)) /\
+  (forall c k, keys (comps (add_core c k s)) = if has_key c (comps s) then keys (comps s) else keys (comps s) ++ [c]) /\
+  (forall o n, used o s = true -> used n s = false -> o <> n ->
+     keys (comps (fst (update_id o n s))) = replz o n (keys (comps s))).
+Proof. exact Lemmas.order_stable_basic. Qed.
+Print Assumptions order_stable_basic.
